@@ -406,6 +406,11 @@ impl Ctx {
         // 2. generated cases: batches are generated (each from its own deterministic sub-seed) and
         // evaluated in parallel; the lowest-index failure is re-generated and shrunk sequentially.
         let n = part.cases(self.tier);
+        // experiments only (not used by the registered commands): scale the number of cases
+        let n = match std::env::var("NVH_CASES_SCALE").ok().and_then(|v| v.parse::<f64>().ok()) {
+            Some(f) if f > 0.0 => ((n as f64 * f) as usize).max(1),
+            _ => n,
+        };
         let batch = part.batch_size().max(1);
         let nbatches = n.div_ceil(batch);
         let group = 64usize;
